@@ -372,9 +372,7 @@ func (i InfixExpression) PrettyPrint(out *PrintState) *PrintState {
 	} else {
 		out.Print(" ", i.Literal(), " ")
 	}
-	if i.Right == nil {
-		out.Print("nil")
-	} else {
+	if i.Right != nil { // nil for the open ended slice a[1:], which is printed as it was written.
 		if rightOperandBindsTighter(i.Type(), i.Right) {
 			out.ExpressionPrecedence++
 		}
